@@ -117,6 +117,8 @@ Lemma P4z_example :
   gz_projb 4 4 P4z = true /\
   crosshair_num P4z xs4 ys4 2 2 = Some [1; -1; -1; 1] /\
   crosshair_num P4z ys4 xs4 2 2 = Some [-1; 1; 1; -1] /\      (* x <-> y: sign flips *)
-  crosshair_num P4z xs4 ys4 1 2 = Some [0; 0; 0; 0] /\        (* crosshair exactly on x_1 = 1: site 1 is NOT below *)
-  chern_num P4z xs4 ys4 = Some [-5; -1; 2; 4].
+  (* crosshair exactly on x_1 = 1: site 1 is NOT below (a `<=` would give the previous line's value) *)
+  crosshair_num P4z xs4 ys4 1 2 = Some [0; -1; 0; 1] /\
+  chern_num P4z xs4 ys4 = Some [3; -3; -3; 3] /\
+  chern_num P4z ys4 xs4 = Some [-3; 3; 3; -3].
 Proof. vm_compute. repeat split. Qed.
